@@ -678,7 +678,7 @@ func c09Scenarios() []*explore.Scenario {
 
 func c09(c *core.Ctx) {
 	c.Budget(110*time.Second, 14*time.Minute)
-	c.SetRule("sequential: one long history per negotiated msize {65536, 256, 24} on CSession <-> conn <-> ServeConn(SSession(S)) with S recording and scripted: each of the 11 session methods x argument lattice (fids incl. NOFID, offsets {0,1,2^32,2^63-1,-1,-2^63}, read/write sizes around msize-11 / msize-23 and 2*msize, 7 modes, 4 perms, names incl. empty/non-UTF-8/long, 16- and 17-name walks, Dir lattice) x result lattice (values, zero-length, MessageRerror, plain error); S must see exactly the arguments (up to the documented clipping), the caller exactly S's results (errors by wire text). concurrent: 2..6 callers, sync and async connection, all schedules up to the bound: each caller gets its own payload and all complete. outcome = method x result class / stuck callers")
+	c.SetRule("sequential: one long history per negotiated msize {65536, 256, 24} on CSession <-> conn <-> ServeConn(SSession(S)) with S recording and scripted: each of the 11 session methods x argument lattice (fids incl. NOFID, offsets {0,1,2^32,2^63-1,-1,-2^63}, read/write sizes around msize-11 / msize-23 and 2*msize, 7 modes, 4 perms, names incl. empty/non-UTF-8/long, 16- and 17-name walks, Dir lattice) x result lattice (values, zero-length, MessageRerror, plain error); S must see exactly the arguments (up to the documented clipping), the caller exactly S's results (errors by wire text). concurrent: 2..6 callers, sync and async connection, all schedules up to the delay bound (quick: 3 for 2-3 callers, 2 for 4-5, 1 for 6; thorough: 4): each caller gets its own payload and all complete. outcome = method x result class / stuck callers")
 	c.Assume("errors are compared by the text that crosses the wire (the client wraps it in MessageRerror)", "sync connection = net.Pipe semantics: a write returns once the peer has read it")
 	var plans []Plan
 	for _, sc := range c09Scenarios()[:3] {
@@ -693,15 +693,15 @@ func c09(c *core.Ctx) {
 			n = 3
 		}
 		sync := strings.Contains(sc.Name, "sync-conn") && !strings.Contains(sc.Name, "async")
+		_ = sync // (5 and 6 callers on a sync connection used to deadlock on the default schedule: defect 18)
 		switch {
-		case n >= 5 && sync:
-			// known finding: the smallest caller count that deadlocks is 5
-			plans = append(plans, Plan{Sc: sc, Delay: true, Max: 0})
 		case c.Quick():
-			if n <= 4 {
+			if n <= 3 {
+				plans = append(plans, Plan{Sc: sc, Delay: true, Max: 3})
+			} else if n == 4 {
 				plans = append(plans, Plan{Sc: sc, Delay: true, Max: 2})
 			} else {
-				plans = append(plans, Plan{Sc: sc, Delay: true, Max: 6 - n})
+				plans = append(plans, Plan{Sc: sc, Delay: true, Max: 7 - n})
 			}
 		default:
 			plans = append(plans, Plan{Sc: sc, Delay: true, Max: 4})
